@@ -27,7 +27,7 @@
 From Coq Require Import List ZArith Bool.
 From Termemu Require Import Base Style Screen Kbd Parser Term Case ScreenInv TermInv HistProofs
   Span SpanText SpanRefine SpanScreen SpanTail TrigMono SpanScreenProofs RunWrite SpanRunProofs SpanTermProofs
-  SpanHistProofs SpanExamples.
+  SpanHistProofs SpanExamples SCase SCaseProofs.
 Import ListNotations.
 Open Scope Z_scope.
 
@@ -206,3 +206,32 @@ Theorem C20span_second_half_differs :
   map ctext (row_at (tmain (fst c)) 0) = [[32]; [120]; [32]; [32]].
 Proof. exact ex_second_half_differs. Qed.
 Print Assumptions C20span_second_half_differs.
+
+(* ---- the span-terminal correspondence entry point (Model/SCase.v) ---- *)
+(* The check runs the span model from the state the harness really starts in - newSpanScreen's 80x14 buffers
+   resized to the case's size - and clears replies and callbacks before every operation.  That start state
+   satisfies the span invariant and its cells are the cell model's initial terminal of that size. *)
+Theorem C20span_harness_start : forall wc, wc_multibyte wc -> forall w h, 1 <= w -> 1 <= h ->
+  STInv wc (s_start wc w h) /\ abs_sterm wc (s_start wc w h) = init_term w h.
+Proof. exact s_start_rel. Qed.
+Print Assumptions C20span_harness_start.
+
+(* one operation of the span-terminal entry point against one operation of the cell-level entry point
+   (Case.run_op, rune mode, span kind), from related states and with the same pending bytes: related states,
+   same pending bytes, whatever maxWidth the blocked read holds *)
+Theorem C20span_case_step : forall wc, wc_multibyte wc -> forall st t pend mw o,
+  hop_ok o -> STInv wc st -> Rel wc st t ->
+  tz (fst (hstep wc false (clear_io t, pend) o)) ->
+  let r := s_hstep wc (s_clear_io st, pend, mw) o in
+  let c := hstep wc false (clear_io t, pend) o in
+  STInv wc (fst (fst r)) /\ Rel wc (fst (fst r)) (fst c) /\ snd (fst r) = snd c.
+Proof. exact scase_step. Qed.
+Print Assumptions C20span_case_step.
+
+(* related states print the same observation records (crash flag and marks, both screen headers, every cell
+   of both buffers, reply bytes, registers and keyboard stacks, view strings, callback digest); only the last
+   record, the list of announced regions, may differ - by coalescing, see C20span_logs_differ *)
+Theorem C20span_case_records : forall wc st t idx p, Rel wc st t ->
+  removelast (enc_obs idx (abs_sterm wc st) p) = removelast (enc_obs idx t p).
+Proof. exact rel_records. Qed.
+Print Assumptions C20span_case_records.
